@@ -173,6 +173,8 @@ Proof.
   - unfold resize in H. eapply RefInv_evict_oracle; [|exact H].
     eapply RefInv_frame; [| | |exact HR]; reflexivity.
   - unfold evict_all in H. eapply RefInv_evict_oracle; eauto.
+  - unfold flush in H. destruct (flush_oracle_frame _ _ _ _ H) as (A & _ & C & D & _).
+    eapply RefInv_frame; eauto.
   - inversion H; subst. apply RefInv_clone; assumption.
   - inversion H; subst. apply RefInv_drop; assumption.
 Qed.
@@ -401,6 +403,8 @@ Proof.
   - unfold resize in H. eapply PinInv_evict_oracle; [|exact H].
     destruct HP as [H1 H2 H3]. constructor; sproj; auto.
   - unfold evict_all in H. eapply PinInv_evict_oracle; eauto.
+  - unfold flush in H. destruct (flush_oracle_frame _ _ _ _ H) as (A & _ & C & _ & E & F).
+    eapply PinInv_shrink; eauto. rewrite F. intros i [].
   - inversion H; subst. apply PinInv_clone; assumption.
   - inversion H; subst. apply PinInv_drop; assumption.
 Qed.
